@@ -62,3 +62,109 @@ pub fn ucode(e: &UnifiedError) -> u32 {
 pub fn ecode(e: ErrorCode) -> u32 {
     e as u32 + anchor_lang::error::ERROR_CODE_OFFSET
 }
+
+// ---------------------------------------------------------------------------------------------
+// Uninterpreted / contract stubs for the arithmetic that bit-blasting cannot decide (DESIGN §2).
+// A memo table makes each stub a *function*: equal arguments give equal results, so a differential
+// harness compares the two implementations on provably equal calls. Table bounds are asserted.
+#[cfg(kani)]
+pub mod memo {
+    use ::whirlpool::errors::ErrorCode;
+    use ::whirlpool::math::{MAX_SQRT_PRICE_X64, MIN_SQRT_PRICE_X64};
+    use ::whirlpool::state::{MAX_TICK_INDEX, MIN_TICK_INDEX};
+
+    const N: usize = 12;
+    static mut MD_K: [(u128, u128, u128); N] = [(0, 0, 0); N];
+    static mut MD_V: [(u8, u128); N] = [(0, 0); N];
+    static mut MD_N: usize = 0;
+
+    /// uninterpreted `checked_mul_div(n0, n1, d)`: Err(DivideByZero) iff d == 0 (that much is cheap and
+    /// exact), otherwise an arbitrary but fixed outcome per argument triple.
+    pub fn stub_checked_mul_div(n0: u128, n1: u128, d: u128) -> Result<u128, ErrorCode> {
+        if d == 0 {
+            return Err(ErrorCode::DivideByZero);
+        }
+        unsafe {
+            let mut i = 0;
+            while i < MD_N {
+                if MD_K[i] == (n0, n1, d) {
+                    return if MD_V[i].0 == 0 { Ok(MD_V[i].1) } else { Err(ErrorCode::MulDivOverflow) };
+                }
+                i += 1;
+            }
+            assert!(MD_N < N, "memo table bound (checked_mul_div)");
+            let ok: bool = kani::any();
+            let v: u128 = kani::any();
+            MD_K[MD_N] = (n0, n1, d);
+            MD_V[MD_N] = (if ok { 0 } else { 1 }, v);
+            MD_N += 1;
+            if ok { Ok(v) } else { Err(ErrorCode::MulDivOverflow) }
+        }
+    }
+
+    static mut MS_K: [(u128, u128); N] = [(0, 0); N];
+    static mut MS_V: [(u8, u64); N] = [(0, 0); N];
+    static mut MS_N: usize = 0;
+
+    /// uninterpreted `checked_mul_shift_right(n0, n1)`; exact for a zero factor (returns 0)
+    pub fn stub_checked_mul_shift_right(n0: u128, n1: u128) -> Result<u64, ErrorCode> {
+        if n0 == 0 || n1 == 0 {
+            return Ok(0);
+        }
+        unsafe {
+            let mut i = 0;
+            while i < MS_N {
+                if MS_K[i] == (n0, n1) {
+                    return if MS_V[i].0 == 0 { Ok(MS_V[i].1) } else { Err(ErrorCode::MultiplicationShiftRightOverflow) };
+                }
+                i += 1;
+            }
+            assert!(MS_N < N, "memo table bound (checked_mul_shift_right)");
+            let ok: bool = kani::any();
+            let v: u64 = kani::any();
+            MS_K[MS_N] = (n0, n1);
+            MS_V[MS_N] = (if ok { 0 } else { 1 }, v);
+            MS_N += 1;
+            if ok { Ok(v) } else { Err(ErrorCode::MultiplicationShiftRightOverflow) }
+        }
+    }
+
+    // strictly monotone abstract tick -> sqrt-price function (contract T1)
+    const NP: usize = 8;
+    static mut TK: [i32; NP] = [0; NP];
+    static mut PR: [u128; NP] = [0; NP];
+    static mut CNT: usize = 0;
+
+    pub fn price_of(t: i32) -> u128 {
+        unsafe {
+            let mut i = 0;
+            while i < CNT {
+                if TK[i] == t { return PR[i]; }
+                i += 1;
+            }
+            let p: u128 = kani::any();
+            kani::assume(p >= MIN_SQRT_PRICE_X64 && p <= MAX_SQRT_PRICE_X64);
+            if t <= MIN_TICK_INDEX { kani::assume(p == MIN_SQRT_PRICE_X64); }
+            if t >= MAX_TICK_INDEX { kani::assume(p == MAX_SQRT_PRICE_X64); }
+            let mut j = 0;
+            while j < CNT {
+                if TK[j] < t { kani::assume(PR[j] < p); } else { kani::assume(PR[j] > p); }
+                j += 1;
+            }
+            assert!(CNT < NP, "memo table bound (sqrt_price_from_tick_index)");
+            TK[CNT] = t;
+            PR[CNT] = p;
+            CNT += 1;
+            p
+        }
+    }
+    pub fn stub_sqrt_price_from_tick_index(t: i32) -> u128 { price_of(t) }
+    /// contract T2: p(t) <= price < p(t+1)
+    pub fn stub_tick_index_from_sqrt_price(p: &u128) -> i32 {
+        let t: i32 = kani::any();
+        kani::assume(t >= MIN_TICK_INDEX && t <= MAX_TICK_INDEX);
+        kani::assume(price_of(t) <= *p);
+        if t < MAX_TICK_INDEX { kani::assume(*p < price_of(t + 1)); }
+        t
+    }
+}
